@@ -1690,6 +1690,71 @@ def _unroll_search_loops(fn: ast.FunctionDef, enum_rows: Dict[str, List[ast.expr
     return changed
 
 
+def _islice_to_break(fn: ast.FunctionDef) -> bool:
+    """D = <iterable>                      (D bound nowhere else)
+       if C: D = itertools.islice(D, 1)
+       for T in D: BODY
+    takes at most one element when C holds: it is  for T in <iterable>: BODY; if C: break  with the cut-off also placed in front of
+    every `continue` of that loop (a `continue` would otherwise skip it).  C must not be changed by BODY (plain names /
+    attribute chains that BODY does not store to)."""
+    changed = False
+    for owner in ast.walk(fn):
+        for field in ("body", "orelse", "finalbody"):
+            block = getattr(owner, field, None)
+            if not isinstance(block, list):
+                continue
+            for i in range(len(block) - 2):
+                a, c, lp = block[i], block[i + 1], block[i + 2]
+                if not (isinstance(a, ast.Assign) and len(a.targets) == 1 and isinstance(a.targets[0], ast.Name)
+                        and isinstance(c, ast.If) and not c.orelse and len(c.body) == 1 and isinstance(c.body[0], ast.Assign)
+                        and isinstance(lp, ast.For) and isinstance(lp.iter, ast.Name) and lp.iter.id == a.targets[0].id and not lp.orelse):
+                    continue
+                d = a.targets[0].id
+                re_ = c.body[0]
+                v = re_.value
+                if not (len(re_.targets) == 1 and isinstance(re_.targets[0], ast.Name) and re_.targets[0].id == d
+                        and isinstance(v, ast.Call) and ((isinstance(v.func, ast.Attribute) and v.func.attr == "islice")
+                                                         or (isinstance(v.func, ast.Name) and v.func.id == "islice"))
+                        and len(v.args) == 2 and isinstance(v.args[0], ast.Name) and v.args[0].id == d
+                        and isinstance(v.args[1], ast.Constant) and v.args[1].value == 1 and not v.keywords):
+                    continue
+                if sum(1 for n in ast.walk(fn) if isinstance(n, ast.Name) and n.id == d) != 4:
+                    continue
+                cond_names = {norm_ for norm_ in (ast.unparse(x) for x in ast.walk(c.test) if isinstance(x, (ast.Name, ast.Attribute)))}
+                stored = {ast.unparse(x) for b in lp.body for x in ast.walk(b)
+                          if isinstance(x, (ast.Name, ast.Attribute)) and isinstance(x.ctx, (ast.Store, ast.Del))}
+                if cond_names & stored:
+                    continue
+
+                def cut():
+                    return ast.If(test=copy.deepcopy(c.test), body=[ast.Break()], orelse=[])
+
+                def place(stmts, depth_loops=0):
+                    out = []
+                    for st in stmts:
+                        if isinstance(st, ast.Continue) and depth_loops == 0:
+                            out.append(cut())
+                            out.append(st)
+                            continue
+                        for f2 in ("body", "orelse", "finalbody"):
+                            sub = getattr(st, f2, None)
+                            if isinstance(sub, list) and not isinstance(st, (ast.FunctionDef, ast.ClassDef)):
+                                inner = depth_loops + (1 if isinstance(st, (ast.For, ast.While)) and f2 == "body" else 0)
+                                setattr(st, f2, place(sub, inner))
+                        if isinstance(st, ast.Try):
+                            for h in st.handlers:
+                                h.body = place(h.body, depth_loops)
+                        out.append(st)
+                    return out
+                lp.body = place(lp.body) + [cut()]
+                lp.iter = a.value
+                block[i:i + 3] = [lp]
+                ast.fix_missing_locations(lp)
+                changed = True
+                break
+    return changed
+
+
 def _collect_then_remove(fn: ast.FunctionDef) -> bool:
     """Two spellings of "remove from L every element for which ...", written as the canonical remove-loop over a copy:
       U = [x for x in L if c]            ;  for y in U: L.remove(y)
@@ -2648,6 +2713,7 @@ def _flatten_module(tree: ast.Module, imported: Dict[str, ast.FunctionDef]) -> T
                         isinstance(x, ast.Name) and x.id == k and isinstance(x.ctx, ast.Load) for x in ast.walk(tree)))
                 _inline_expression_closures(node)  # again: a closure handed to an inlined helper is now called directly
                 _any_to_search_loops(node)
+            _islice_to_break(node)
             _collect_then_remove(node)
             _accumulate_to_comp(node)
             _slice_filters(node)
